@@ -162,21 +162,31 @@ def judge_inverse(length):
 
 
 def judge_reader_equiv(scn):
-    """VbsReader(blocked=True) on block(x) yields the same records as VbsReader on x"""
+    """VbsReader(blocked=True) on block(x) yields the same records as VbsReader on x.  Only the comparison of
+    the two readings is C05's business: if the record reader refuses x itself (C03's ground), both readings
+    must merely agree."""
     m = sut.load()
     recs = [mk_bytes(s) for s in scn["records"]]
     x = refmodel.vbs_layout(recs)
-    try:
-        with sut.knob(scn.get("max", 6000)):
-            a = list(m["mciipm"].VbsReader(SimFile(x)))
-            b = list(m["mciipm"].VbsReader(SimFile(refmodel.block(x)), blocked=True))
-    except Exception as ex:
-        return [{"oracle": "C05.reader.blocked_equals_unblocked", "detail": f"raised {type(ex).__name__}: {ex}",
-                 "sig": f"C05.reader.blocked_equals_unblocked|{type(ex).__name__}"}]
-    if a != b or b != recs:
+
+    def reading(f, blocked):
+        out = []
+        try:
+            for r in m["mciipm"].VbsReader(f, blocked=blocked):
+                out.append(r)
+            return out, "stop"
+        except m["MciIpmDataError"]:
+            return out, "MciIpmDataError"
+        except Exception as ex:
+            return out, "foreign:" + type(ex).__name__
+
+    with sut.knob(scn.get("max", 6000)):
+        a, ea = reading(SimFile(x), False)
+        b, eb = reading(SimFile(refmodel.block(x)), True)
+    if a != b or ea != eb:
         return [{"oracle": "C05.reader.blocked_equals_unblocked",
-                 "detail": f"{len(recs)} records: unblocked read gave {len(a)}, blocked read gave {len(b)}",
-                 "sig": "C05.reader.blocked_equals_unblocked"}]
+                 "detail": f"{len(recs)} records: unblocked read gave {len(a)} then {ea}, blocked read gave {len(b)} then {eb}",
+                 "sig": f"C05.reader.blocked_equals_unblocked|{ea}|{eb}"}]
     return []
 
 
